@@ -160,6 +160,40 @@ let run_hist u line =
        String.concat ";" (List.map fmt_hout outs)
      | _ -> failwith "bad hist head")
 
+(* ---------- stream: sqlhist (C20) ---------- *)
+let run_sqlhist u line =
+  match String.split_on_char ';' line with
+  | [] -> ""
+  | head :: ops ->
+    (match words head with
+     | [max; igs; igd] ->
+       let h = sql_new (nat_of_int (int_of_string max)) (parse_bool igs) (parse_bool igd) in
+       let dir t = if t = "f" then Forward else Reverse in
+       let ops = List.filter (fun o -> words o <> []) ops in
+       let parse o = match words o with
+         | ["add"; s] -> Some (SAdd (parse_str s))
+         | ["get"; i; d] -> Some (SGet (nat_of_int (int_of_string i), dir d))
+         | ["len"] -> Some SLen
+         | ["setmax"; n] -> Some (SSetMax (nat_of_int (int_of_string n)))
+         | ["reopen"] -> Some SReopen
+         | ("search" :: _) | ("sw" :: _) -> None        (* full-text search: not modelled *)
+         | _ -> failwith ("bad sqlhist op: " ^ o) in
+       let parsed = List.map parse ops in
+       let (_, outs) = sql_run u h (List.filter_map (fun x -> x) parsed) in
+       let fmt = function
+         | SoBool b -> if b then "b1" else "b0"
+         | SoGet None -> "g:none"
+         | SoGet (Some (i, e)) -> Printf.sprintf "g:%d,%s" (int_of_nat i) (fmt_str e)
+         | SoNat n -> Printf.sprintf "n:%d" (int_of_nat n)
+         | SoUnit -> "u" in
+       let rec merge ps os = match ps, os with
+         | [], _ -> []
+         | None :: pr, _ -> "s:?" :: merge pr os
+         | Some _ :: pr, o :: orest -> fmt o :: merge pr orest
+         | Some _ :: _, [] -> failwith "sqlhist: output count" in
+       String.concat ";" (merge parsed outs)
+     | _ -> failwith "bad sqlhist head")
+
 (* ---------- stream: fhist (C10/C11/C12) ---------- *)
 let parse_fop (tick : bool) (t : string list) : fop =
   let nat s = nat_of_int (int_of_string s) in
@@ -439,6 +473,7 @@ let () =
   let f = match stream with
     | "hist" -> run_hist u
     | "fhist" -> run_fhist u
+    | "sqlhist" -> run_sqlhist u
     | "seg" -> run_seg u
     | "direct" -> run_direct u
     | "compl" -> run_compl u
